@@ -19,8 +19,13 @@ def main():
     na_path = os.path.join(VERIF, "not_applicable.json")
     if os.path.exists(na_path):
         extra_na = json.load(open(na_path))
+    ready_path = os.path.join(VERIF, "ready.json")
+    ready = set(json.load(open(ready_path))) if os.path.exists(ready_path) else None
     for pr in props:
         pid = pr["id"]
+        if ready is not None and pid not in ready and pid not in extra_na:
+            na.append({"property_id": pid, "reason": PENDING_REASON})
+            continue
         path = os.path.join(VERIF, "opv", "props", pid.lower() + ".py")
         if pid in extra_na or not os.path.exists(path):
             na.append({"property_id": pid, "reason": extra_na.get(pid, PENDING_REASON)})
